@@ -40,6 +40,10 @@ func (o Op) String() string {
 		return fmt.Sprintf("m%d.Union(m%d)", o.A, o.B)
 	case "newmap":
 		return fmt.Sprintf("NewIntMap(%s)", pairs(o.V))
+	case "zeromap":
+		return "data.IntMap{} (the zero value)"
+	case "zeroset":
+		return "data.IntSet{} (the zero value)"
 	case "inc":
 		return fmt.Sprintf("m%d.Inc(%d)", o.A, o.V[0])
 	case "filter":
@@ -114,7 +118,7 @@ func cloneMap(m map[int]int) map[int]int {
 func (p *pool) enabled(o Op) bool {
 	in := func(i int) bool { return i >= 0 && i < len(p.m) }
 	switch o.K {
-	case "newset", "newmap":
+	case "newset", "newmap", "zeromap", "zeroset":
 		return true
 	case "newsetwin":
 		return len(o.V) == 2 && o.V[0] >= 0 && o.V[0] <= o.V[1] && o.V[1] <= len(p.args)
@@ -166,6 +170,11 @@ func (p *pool) apply(o Op) {
 			}
 		}
 		p.m = append(p.m, member{mp: data.NewIntMap(lit), mmap: mm, how: o.String()})
+	case "zeromap":
+		// the zero value of the type is a legal empty map (nothing in the API says a constructor must be used)
+		p.m = append(p.m, member{mp: data.IntMap{}, mmap: map[int]int{}, how: o.String()})
+	case "zeroset":
+		p.m = append(p.m, member{isSet: true, set: data.IntSet{}, mset: nil, how: o.String()})
 	case "inc":
 		a := p.m[o.A]
 		mm := cloneMap(a.mmap)
@@ -420,6 +429,7 @@ func alphabet(p *pool, withMaps bool) []Op {
 		ops = append(ops, Op{K: "newsetwin", V: w})
 	}
 	if withMaps {
+		ops = append(ops, Op{K: "zeromap"}, Op{K: "zeroset"})
 		ops = append(ops, Op{K: "newmap"})             // nil
 		ops = append(ops, Op{K: "newmap", V: []int{}}) // empty literal
 		for _, a := range vals {
@@ -537,6 +547,12 @@ func bfs(env *explore.Env, sc scenario, res *explore.Result) {
 	for depth := 1; depth <= sc.depth && len(frontier) > 0; depth++ {
 		var next []node
 		for _, nd := range frontier {
+			if len(data.EmptyIntMap.Keys()) != 0 || data.EmptyIntSet.Len() != 0 {
+				// an earlier history (reported above) has written into the package-level empty values: nothing this
+				// process computes from now on can be reproduced from its own history alone
+				res.Notes = append(res.Notes, "the shared empty values were polluted by a reported history: this worker stopped exploring")
+				return
+			}
 			p, vkey, what := runHistory(nd.ops, false)
 			res.Add("transitions", 1)
 			res.Add("traces", 1)
